@@ -184,7 +184,7 @@ def matrix_with_spectrum(rng, q0, q1, kind, cplx):
 
 
 def _layout(rng, m, n):
-    lay = str(rng.choice(['zero', 'sorted', 'unsorted', 'q0sorted', 'q1sorted', 'disjoint', 'big', 'pairs', 'repeated', 'huge', 'mirror', 'extreme-signs', 'int8', 'wrap-sorted', 'wrap-sorted-int8', 'int8-small']))
+    lay = str(rng.choice(['zero', 'sorted', 'unsorted', 'q0sorted', 'q1sorted', 'disjoint', 'big', 'pairs', 'repeated', 'huge', 'mirror', 'extreme-signs', 'int8', 'wrap-sorted', 'wrap-sorted-int8', 'int8-small', 'aliased', 'aliased', 'int-extremes']))
     r = int(rng.integers(1, 3))
     if min(m, n) >= 60 and rng.random() < 0.4:
         lay = 'many-sectors'
@@ -208,8 +208,20 @@ def random_svd(ctx, idx, rng):
     m, n = (int(rng.integers(1, 25)), int(rng.integers(1, 25))) if idx % 20 else (int(rng.integers(25, 120)), int(rng.integers(25, 120)))
     if idx % 300 == 150:
         m, n = int(rng.integers(300, 700)), int(rng.integers(300, 700))          # occasionally a really large matrix
+    aspect = idx % 10 == 7
+    if aspect:
+        # extreme aspect ratios: very tall and skinny or very wide and flat blocks (80..400 x 2..5) in one or two charge sectors
+        m, n = int(rng.integers(80, 400)), int(rng.integers(2, 6))
+        if rng.random() < 0.5:
+            m, n = n, m
     lay, q0, q1 = _layout(rng, m, n)
+    if aspect and rng.random() < 0.7:
+        lay = 'aspect-one-or-two-sectors'
+        nsec = int(rng.integers(1, 3))
+        q0 = np.sort(rng.integers(0, nsec, size=m)); q1 = np.sort(rng.integers(0, nsec, size=n))
     kind = str(rng.choice(['decaying', 'flat', 'staircase', 'degenerate', 'near-degenerate', 'weak-tail', 'deficient', 'random', 'zerocols', 'binary', 'dupcols', 'nearstruct', 'nearstruct']))
+    if aspect:
+        kind = str(rng.choice(['weak-tail', 'weak-tail', 'decaying', 'near-degenerate', 'random']))
     cplx = bool(rng.random() < 0.5)
     if kind in ('zerocols', 'binary', 'dupcols', 'nearstruct'):
         A = gen.structured_block_matrix(rng, q0, q1, kind) * float(rng.choice(SCALES))
